@@ -6,6 +6,7 @@ package main
 import (
 	"go/types"
 	"golang.org/x/tools/go/ssa"
+	"strings"
 )
 
 // ruleHintVoting (C06, C18): a non-zero ReadIndex context hint is sent only to
@@ -1326,4 +1327,122 @@ func ruleChunkPayloadFresh(e *Engine, r *Report) {
 		r.floor("OWN-chunk-payload", cnt, 1)
 	}
 	// BlockWriter hands out its internal buffer only to onNewBlock synchronously: the callee must copy (above)
+}
+
+// ruleRaftPredicates: exact-polarity obligations for the small predicates of
+// the raft core that decide elections, log matching and ReadIndex. Each line
+// is "the predicate answers <pol> only under <facts>"; the facts are the
+// ones the protocol's safety argument uses. Used by C02, C03, C06, C17.
+func ruleRaftPredicates(e *Engine, r *Report, which ...string) {
+	want := map[string]bool{}
+	for _, w := range which {
+		want[w] = true
+	}
+	termF := e.Field("internal/raft", "raft", "term")
+	msgTerm := e.Field("raftpb", "Message", "Term")
+	msgFrom := e.Field("raftpb", "Message", "From")
+	msgHint := e.Field("raftpb", "Message", "Hint")
+	if termF == nil || msgTerm == nil || msgFrom == nil || msgHint == nil {
+		r.undecided("ANCHOR", "raft.term/Message.Term/From/Hint", "anchored field no longer resolves")
+		return
+	}
+	param := func(fn *ssa.Function, name string) VM {
+		return func(v ssa.Value) bool {
+			p, ok := stripConv(v).(*ssa.Parameter)
+			return ok && p.Parent() == fn && p.Name() == name
+		}
+	}
+	if want["upToDate"] {
+		if fn := r.need("(*internal/raft.entryLog).upToDate"); fn != nil {
+			termOf := e.Func("(*internal/raft.entryLog).term")
+			lastIndex := e.Func("(*internal/raft.entryLog).lastIndex")
+			r.returnsOnlyUnder("GD-pred-uptodate", fname(fn), fn, 0, true, nil,
+				reqCmp("candidate's last term >= own last term", ">=", param(fn, "term"), e.callV(termOf)),
+				reqAny("candidate's last term > own last term, or its last index >= own last index",
+					reqCmp("", ">", param(fn, "term"), e.callV(termOf)),
+					reqCmp("", ">=", param(fn, "index"), e.callV(lastIndex))))
+		}
+	}
+	if want["matchTerm"] {
+		if fn := r.need("(*internal/raft.entryLog).matchTerm"); fn != nil {
+			termOf := e.Func("(*internal/raft.entryLog).term")
+			r.returnsOnlyUnder("GD-pred-matchterm", fname(fn), fn, 0, true, nil,
+				reqCmp("term of the local entry at index == given term", "==", e.callV(termOf), param(fn, "term")))
+		}
+	}
+	if want["hasCommittedEntryAtCurrentTerm"] {
+		if fn := r.need(raftT + "hasCommittedEntryAtCurrentTerm"); fn != nil {
+			termOf := e.Func("(*internal/raft.entryLog).term")
+			r.returnsOnlyUnder("GD-pred-committed-own-term", fname(fn), fn, 0, true, nil,
+				reqCmp("term of the entry at the commit index == current term", "==", e.callV(termOf), fieldV(termF)))
+			// and the index asked for is the commit index
+			committed := e.Field("internal/raft", "entryLog", "committed")
+			okA := false
+			for _, s := range e.SitesIn(fn, termOf) {
+				a := s.Common().Args
+				if len(a) > 0 && fieldV(committed)(a[len(a)-1]) {
+					okA = true
+				}
+			}
+			r.check(okA, "GD-pred-committed-own-term", fname(fn)+" asks for the term at log.committed", e.pos(fn.Pos()), "the commit index", "the term is no longer looked up at the commit index")
+		}
+	}
+	if want["dropRequestVote"] {
+		if fn := r.need(raftT + "dropRequestVoteFromHighTermNode"); fn != nil {
+			leaderID := e.Field("internal/raft", "raft", "leaderID")
+			eTick := e.Field("internal/raft", "raft", "electionTick")
+			eTimeout := e.Field("internal/raft", "raft", "electionTimeout")
+			cq := e.Field("internal/raft", "raft", "checkQuorum")
+			isRV := e.Func("internal/raft.isRequestVoteMessage")
+			r.returnsOnlyUnder("GD-pred-lease-drop", fname(fn), fn, 0, true, nil,
+				reqBool("the message is a RequestVote/RequestPreVote", e.callV(isRV), true),
+				reqBool("check-quorum is on", fieldV(cq), true),
+				reqCmp("m.Term > r.term", ">", fieldV(msgTerm), fieldV(termF)),
+				reqCmp("not a leader-transfer vote (m.Hint != m.From)", "!=", fieldV(msgHint), fieldV(msgFrom)),
+				reqCmp("a leader is known (leaderID != NoLeader)", "!=", fieldV(leaderID), anyV()),
+				reqCmp("within the lease (electionTick < electionTimeout)", "<", fieldV(eTick), fieldV(eTimeout)))
+		}
+	}
+	if want["time"] {
+		eTick := e.Field("internal/raft", "raft", "electionTick")
+		for _, t := range [][3]string{
+			{"timeForElection", "electionTick", "randomizedElectionTimeout"},
+			{"timeForHeartbeat", "heartbeatTick", "heartbeatTimeout"},
+			{"timeForCheckQuorum", "electionTick", "electionTimeout"},
+		} {
+			fn := r.need(raftT + t[0])
+			a := e.Field("internal/raft", "raft", t[1])
+			b := e.Field("internal/raft", "raft", t[2])
+			if fn == nil || a == nil || b == nil {
+				continue
+			}
+			// both directions: true only when tick >= timeout, false only when tick < timeout
+			r.returnsOnlyUnder("GD-pred-time", fname(fn), fn, 0, true, nil, reqCmp(t[1]+" >= "+t[2], ">=", fieldV(a), fieldV(b)))
+			r.returnsOnlyUnder("GD-pred-time", fname(fn), fn, 0, false, nil, reqCmp(t[1]+" < "+t[2], "<", fieldV(a), fieldV(b)))
+		}
+		_ = eTick
+	}
+	if want["termNotMatched"] {
+		if fn := r.need(raftT + "onMessageTermNotMatched"); fn != nil {
+			drop := e.Func(raftT + "dropRequestVoteFromHighTermNode")
+			// a message is ignored only when it is a lease-protected vote request or carries a lower term
+			r.returnsOnlyUnder("GD-pred-term-mismatch", fname(fn), fn, 0, true, nil,
+				reqAny("lease-protected vote request, or m.Term < r.term",
+					reqBool("", e.callV(drop), true),
+					reqCmp("", "<", fieldV(msgTerm), fieldV(termF))))
+			// a term change (become*) only for a strictly higher term
+			n := 0
+			forEachCall(fn, func(s ssa.CallInstruction) {
+				for _, g := range e.Callees(s) {
+					if strings.HasPrefix(g.Name(), "become") {
+						n++
+						r.guard("GD-pred-term-mismatch", g.Name()+" called in "+fname(fn), s.(ssa.Instruction),
+							reqCmp("m.Term > r.term", ">", fieldV(msgTerm), fieldV(termF)))
+						return
+					}
+				}
+			})
+			r.floor("GD-pred-term-mismatch", n, 3)
+		}
+	}
 }
